@@ -22,8 +22,8 @@ RULE = ("one generator call per case; every public generator of mouette.procedur
         "every boolean switch combination, arguments passed positionally / by keyword / mixed / defaults omitted; dual_mesh on certified closed "
         "manifolds of the surface zoo; non-trivial = unequal resolutions or at least one non-default switch/parameter; "
         "distinct = distinct (generator, parameters) hash")
-REQUIRED = {"call": 800, "valid": 3000, "shape": 600, "counts": 1000, "geometry": 1200, "switch": 500, "apex": 60,
-            "dual": 150, "polyline": 100, "volume": 20, "raises": 10}
+REQUIRED = {"call": 800, "valid": 3000, "shape": 500, "counts": 700, "geometry": 500, "switch": 1000, "apex": 150,
+            "dual": 150, "polyline": 100, "volume": 15, "raises": 10}
 CASE_TIMEOUT = {"quick": 120.0, "thorough": 300.0}
 ASSUMPTIONS = [
     "admissible = documented minimum where the docstring gives one (ring N>=3), otherwise the smallest resolution for which the named shape "
@@ -253,10 +253,10 @@ def cases(seed, tier):
                           "max_size": rng.choice([2, 4, 6, 8])})
     rng.shuffle(out)
     # a few small readable calls are marked as evidence samples (one per kind)
-    size = {"unit_grid": lambda p: (p["nu"] * p["nv"], p["nu"] == p["nv"], p["triangulate"]),
-            "sphere_uv": lambda p: (p["n_lat"] * p["n_long"],), "torus": lambda p: (p["major_segments"] * p["minor_segments"], not p["triangulate"]),
+    size = {"unit_grid": lambda p: (p["nu"] == p["nv"], p["nu"] * p["nv"], p["triangulate"]),
+            "sphere_uv": lambda p: (p["n_lat"] * p["n_long"],), "torus": lambda p: (p["major_segments"] == p["minor_segments"], p["major_segments"] * p["minor_segments"], p["triangulate"]),
             "ring": lambda p: (p["N"] * p["n_cover"], p["open"]), "cylinder": lambda p: (p["N"], p["fill_caps"]),
-            "unit_triangle": lambda p: (p["nu"] * p["nv"], p["nu"] == p["nv"])}
+            "unit_triangle": lambda p: (p["nu"] != 3 or p["nv"] != 3, p["nu"] * p["nv"])}
     for g, key in size.items():
         cand = [d for d in out if d["gen"] == g and not d.get("expect_raise")]
         if cand:
